@@ -127,6 +127,7 @@ func cmdWorker(args []string) int {
 	so := &ShardOut{PerEntry: map[string]int{}, Faults: map[string]int{}, Probes: map[string]int{}, SweepDone: map[string]bool{}, SweepCases: map[string]int{}}
 	sigs := map[uint64]bool{}
 	seenViol := map[string]bool{}
+	abandoned := false
 	absorb := func(entry string, r *core.Result) {
 		so.Evaluations++
 		so.PerEntry[entry]++
@@ -180,8 +181,18 @@ func cmdWorker(args []string) int {
 		if isRace {
 			maxExec, maxTime = 120, 60*time.Second
 		}
-		best, execs := choice.Shrink(tape, maxExec, maxTime, test)
-		final, _ := runTape(best)
+		var best []uint64
+		var execs int
+		var final *core.Result
+		if r.Abandoned {
+			// the run left code under test spinning: every re-execution costs the full time-out and
+			// another spinning goroutine, so the tape is reported unshrunk
+			best, final = tape, r
+			abandoned = true
+		} else {
+			best, execs = choice.Shrink(tape, maxExec, maxTime, test)
+			final, _ = runTape(best)
+		}
 		if final == nil || final.Violation == nil {
 			best = tape
 			final, _ = runTape(best)
@@ -209,7 +220,7 @@ func cmdWorker(args []string) int {
 		deadline := sweepStart.Add(*sweepBudget)
 		n := 0
 		complete := sw.Enumerate(*quick, *seed, *shard, *nshards, func(tape []uint64) bool {
-			if n%64 == 0 && time.Now().After(deadline) {
+			if abandoned || n%64 == 0 && time.Now().After(deadline) {
 				return false
 			}
 			n++
@@ -232,7 +243,7 @@ func cmdWorker(args []string) int {
 	deadline := start.Add(*budget)
 	if len(p.Explore) > 0 {
 		for i := 0; ; i++ {
-			if time.Now().After(deadline) {
+			if abandoned || time.Now().After(deadline) {
 				break
 			}
 			name := p.Explore[i%len(p.Explore)]
